@@ -17,6 +17,7 @@ import (
 	"encoding/hex"
 	"fmt"
 	"os"
+	"runtime/pprof"
 	"sort"
 	"strings"
 	"time"
@@ -230,12 +231,17 @@ func (h *history) fixLU(res string) string {
 
 func main() {
 	e := vlib.Init()
+	if pf := os.Getenv("VERIF_PROF"); pf != "" {
+		f, _ := os.Create(pf)
+		pprof.StartCPUProfile(f)
+		defer pprof.StopCPUProfile()
+	}
 	e.Rule = "random histories (40-60 ops) over a fresh in-memory SQLite path DB and beacon DB: " +
 		"inserts of 6+5 overlapping segment identities x peer variant x 5 info timestamps x " +
 		"8 versions (ns-granular) x 3 hop lifetimes x 3 types x 4 hidden-path groups, " +
 		"expiry clean-ups, prefix deletions, next-query writes, and queries with random filter " +
 		"combinations; non-trivial = op on a non-empty store; distinct by op line within history"
-	nHist := e.N(500, 6000)
+	nHist := e.N(300, 4000)
 	if os.Getenv("VERIF_STORES_HIST") != "" {
 		fmt.Sscan(os.Getenv("VERIF_STORES_HIST"), &nHist)
 	}
@@ -451,9 +457,9 @@ func (h *history) pathOp() {
 			}
 			return "ok"
 		})
-	case k < 64: // next query
-		ias := []addr.IA{mustIA("1-ff00:0:110"), mustIA("1-ff00:0:111"), mustIA("2-ff00:0:210")}
-		src, dst := ias[r.Intn(3)], ias[r.Intn(3)]
+	case k < 68: // next query
+		ias := []addr.IA{mustIA("1-ff00:0:110"), mustIA("2-ff00:0:210")}
+		src, dst := ias[r.Intn(2)], ias[r.Intn(2)]
 		kk := [2]addr.IA{src, dst}
 		if r.Chance(65) {
 			t := (base+int64(r.Intn(6))*60)*1e9 + int64(r.Intn(2))
@@ -810,7 +816,7 @@ func (h *history) candidates(tg func(string) string) {
 	r := h.r
 	u := []beacon.Usage{beacon.UsageProp, beacon.UsageUpReg, beacon.UsageCoreReg, beacon.UsageProp | beacon.UsageUpReg}[r.Intn(4)]
 	src := []addr.IA{0, mustIA("1-ff00:0:110"), mustIA("2-ff00:0:210"), 0}[r.Intn(4)]
-	k := r.Intn(6)
+	k := r.Intn(4)
 	op := fmt.Sprintf("bcand %d %d %s", k, int(u), iaStr(src))
 	var match []*brow
 	for _, row := range h.bref {
